@@ -235,6 +235,57 @@ CLAIMED = {
         'over histories; the loops are verified only for safety), termination of the WTX / retransmit-after-ACK '
         'loops against an adversarial card (no variant exists; reported as a note), retry counting, Type4BTag.',
    technique='contract-based deductive verification: interface preconditions + raises-clauses (pyvc)'),
+ 'C01': dict(
+   category='proof',
+   text='Type 3 and Type 4 Tags, against ghost tag memory (models/tag_models.T3NdefTag, T4FileCard) and an independent '
+        'reading of the NDEF mapping (specs/ndef_map.py): for every well-formed attribute block / capability container, '
+        'every previous memory content and every message of length 0..capacity, _write_ndef_data leaves a memory in '
+        'which a fresh reader finds exactly the message (postcondition over the whole memory, loop invariants over the '
+        'block / UPDATE BINARY loops, unbounded); _read_ndef_data returns exactly the message the independent reading '
+        'finds, sends no write command and reports len <= capacity; _discover_ndef takes the real limits of the CC '
+        '(capacity + NLEN field = file size, capped at what 16-bit offsets address; MLe/MLc capped at short-APDU '
+        'limits); the octets setter refuses longer data before any command. Type 1/2 (TLV walk with skip bytes) are '
+        'bounded stand-ins (fixed layouts, symbolic contents) and not counted; the emulated Type 3 Tag is not covered.',
+   design_ref='DESIGN.md section 5 (C01-C03)',
+   note='Tag memories are environment models: Type 3 service with atomic block-list writes; Type 4 short-APDU card '
+        'whose 16-bit P1P2 offset addresses the whole file (offsets above 7FFFh as the library itself assumes). '
+        'Well-formed means: T3 valid checksum, Nbr/Nbw >= 1, declared blocks exist, RFU zero; T4 mapping 2.x/3.x, '
+        'MLe >= 15, MLc >= 1. FeliCa Lite / NXP / Broadcom product classes are not covered.',
+   technique='contract-based deductive verification: ghost memory + abstract view postconditions, loop invariants (pyvc)'),
+ 'C02': dict(
+   category='proof',
+   text='Type 3 and Type 4: the cut-point condition (a fresh reader sees the previous message, an empty / not readable '
+        'area, or the complete new message) is an interface obligation of the ghost tag at every state-changing '
+        'command (each Type 3 block-list write, each UPDATE BINARY), proved at every call site for every layout, '
+        'message and previous content, inside the write loops by invariant; the final state satisfies it too. '
+        'Type 4 is stated for MLc >= NLEN field size (with a smaller MLc no command sequence can commit the length '
+        'atomically). Type 1/2 are bounded stand-ins and not counted.',
+   design_ref='DESIGN.md section 5 (C01-C03)',
+   note='Atomicity of one command on the tag is assumed (a block-list write / UPDATE BINARY happens entirely or not '
+        'at all). Same environment models and well-formedness as C01.',
+   technique='contract-based deductive verification: interface preconditions on ghost tag memory at every write (pyvc)'),
+ 'C03': dict(
+   category='proof',
+   text='Type 3 and Type 4: every write command addresses only blocks 0..Nmaxb resp. octets inside the NDEF file with '
+        'the NDEF file selected (interface obligation at each call site), the attribute block keeps everything but '
+        'WriteF/Ln/checksum, memory beyond the message keeps its value (frame postcondition over the whole ghost '
+        'memory); Type 4 format(wipe) stays inside the file and leaves an empty message. Type 1/2 are bounded '
+        'stand-ins and not counted.',
+   design_ref='DESIGN.md section 5 (C01-C03)',
+   note='Same environment models as C01. Type 3 format() (tt3_sony FelicaLite) and Type 1/2 _format are not covered.',
+   technique='contract-based deductive verification: frame conditions on ghost tag memory (pyvc)'),
+ 'C08': dict(
+   category='proof',
+   text='Type 3 and Type 4 readers against an adversarial tag (every response arbitrary bytes of any length or a '
+        'command error, for Type 4 behind the real send_apdu/transceive): _read_attribute_data, _read_ndef_data and '
+        '_discover_ndef raise nothing (Type 4 discovery: only Type4TagCommandError, which Tag.ndef callers handle), '
+        'return None or data with len <= capacity, and send a bounded number of commands (loop variants). '
+        'Type 1/2 TLV walkers and activation dispatch are not covered (see C16 for the per-command contracts and C12 '
+        'for RATS/ATS evaluation).',
+   design_ref='DESIGN.md section 5 (C08)',
+   note='Tag.ndef / NDEF.has_changed wrappers, tt1/tt2 memory readers and vendor probing are NOT decided here.',
+   technique='contract-based deductive verification: raises-clauses and loop variants against adversarial models (pyvc)'),
+
 }
 
 NOT_APPLICABLE = {}
